@@ -400,6 +400,14 @@ def _match_here(ptoks, pi, toks, ti, binds):
                     pi += 1; ti += 1
                     continue
                 return None
+            if name.startswith('lt_'):
+                if ti < len(toks) and toks[ti].kind == 'life':
+                    if name in binds and binds[name][2] != toks[ti].text:
+                        return None
+                    binds[name] = (ti, ti + 1, toks[ti].text)
+                    pi += 1; ti += 1
+                    continue
+                return None
             # balanced sequence, minimal length such that the rest matches
             j = ti
             depth = 0
@@ -422,7 +430,7 @@ def _match_here(ptoks, pi, toks, ti, binds):
                         depth -= 1
                         if depth < 0:
                             return None
-                    elif depth == 0 and t.text == ';':
+                    elif depth == 0 and t.text == ';' and not multi:
                         return None
                     elif depth == 0 and t.text == ',' and not multi:
                         return None
